@@ -31,6 +31,7 @@ import LfsModel.Checkout
 import LfsModel.LogScan
 import LfsModel.Prune
 import LfsModel.Fsck
+import LfsModel.FsckScan
 import LfsModel.Rewrite
 import LfsModel.Locks
 open Lfs
@@ -653,6 +654,18 @@ def c13 : List String → String
        let show_ := fun (l : List Nat) => if l.isEmpty then "-" else String.intercalate "," (sortStr (l.eraseDups.map toString))
        (if o.exitOk then "ok" else "fail") ++ " objects=" ++ show_ o.reportedObjects ++ " pointers=" ++ show_ o.reportedPointers ++ " moved=" ++ show_ o.moved
      | _, _ => "bad-op")
+  | ["scan", entries] =>
+    -- entries in walk order: `<path>:<blob>:<excluded 0|1>`; answer: the blobs whose pointers are checked
+    let es? : Option (List (Nat × Nat × Bool)) := if entries == "-" then some [] else (entries.splitOn ",").mapM fun t =>
+      match t.splitOn ":" with
+      | [p, b, e] => do pure ((← p.toNat?), (← b.toNat?), e == "1")
+      | _ => none
+    (match es? with
+     | some es =>
+       let ex := fun p => (es.find? (fun e => e.1 == p)).map (·.2.2) |>.getD false
+       let r := FsScan.scanned ex (es.map fun e => (e.1, e.2.1))
+       if r.isEmpty then "-" else String.intercalate "," (sortStr (r.map toString))
+     | none => "bad-op")
   | _ => "bad-op"
 
 /-! ### C12 -/
